@@ -48,7 +48,8 @@ WrapFail == {"garbage", "digits", "empty", "exit3", "errnonl", "okexit", "sleep"
 MustFail == {"exit3", "exit1silent", "killed", "notExecutable", "badFormat", "missing", "badInterpreter",
              "sleepPastDeadline", "execSleep", "ignoresTerm", "hugeThenSleep",
              "stderrNoNewline", "stderrBlankLines", "stderrHuge", "stderrBinary", "killedWithStderr", "termSelf",
-             "closesStdoutThenSleeps", "exit255"}
+             "closesStdoutThenSleeps", "exit255",
+             "symlinkLoop", "danglingSymlink", "parentIsFile", "nameTooLong", "directory", "emptyName"}
             \cup {pfx \o ":" \o m : pfx \in {"sensor", "fan.getPwm", "fan.getRpm"}, m \in WrapFail}
             \cup {"fan.setPwm:" \o m : m \in {"exit3", "errnonl", "okexit", "sleep"}}
 MustSucceed == {"ok", "okTrim", "empty", "garbage", "huge", "okWithStderr", "okNoNewline", "readsStdin"}
